@@ -36,6 +36,7 @@ typedef struct {
     int ci, p, victim, ki, c1, c2;
     unsigned char orig[20000];
     int orig_len;
+    int malformed_hello;
 } gctx_t;
 
 static void build_kills(void)
@@ -50,6 +51,7 @@ static void build_kills(void)
     kills[nkill++] = (kill_t) { K_PEER_CLOSE, 0 };
     kills[nkill++] = (kill_t) { K_CORRUPT, 0 };   /* flip a bit in the last byte (MAC/tag/verify data) */
     kills[nkill++] = (kill_t) { K_CORRUPT, 1 };   /* flip a bit in the first body byte */
+    kills[nkill++] = (kill_t) { K_CORRUPT, 2 };   /* plaintext ClientHello / ServerHello: session id length 33 (never legal) */
     kills[nkill++] = (kill_t) { K_ILLEGAL_HS, 0 };  /* HelloRequest */
     kills[nkill++] = (kill_t) { K_ILLEGAL_HS, 20 }; /* Finished */
     kills[nkill++] = (kill_t) { K_ILLEGAL_HS, 99 }; /* unknown type */
@@ -192,6 +194,17 @@ static int apply_kill(gctx_t *g, const kill_t *k)
             {
                 rec[1] = dtls ? 3 : 0xfe; rec[2] = dtls ? 3 : 0xfd;
             }
+        }
+        else if (k->a == 2)
+        {
+            int h = hdr_len(c), so = h + (dtls ? 12 : 4) + 2 + 32;
+            if (rec[0] != 22 || (rec[h] != 1 && rec[h] != 2) || len <= so || (dtls && (rec[3] || rec[4])))
+            {
+                g->orig_len = 0;
+                return 1;   /* not a plaintext hello */
+            }
+            rec[so] = 33;
+            g->malformed_hello = 1;
         }
         else if (k->a == 0)
         {
@@ -377,7 +390,11 @@ static void run_case(void *ctx, mx_result_t *r)
             (k->kind == K_BADVER || k->kind == K_OVERSIZE || k->kind == K_PLAIN_ALERT || (k->kind == K_ILLEGAL_HS && k->a == 99));
         /* a PROTECTED record that fails to verify (bit flipped in its MAC / tag, or in its first body byte) is an error on TLS
            in every version - except for the records a TLS 1.3 server skips while it rejects early data the client OFFERED */
-        if (k->kind == K_CORRUPT && g->orig_len > 0 && !ver_is_dtls(c->ver))
+        if (k->kind == K_CORRUPT && k->a == 2 && g->malformed_hello && !ver_is_dtls(c->ver))
+        {
+            must = 1;   /* a hello that cannot be parsed is a decode error in every TLS version and state */
+        }
+        else if (k->kind == K_CORRUPT && k->a != 2 && g->orig_len > 0 && !ver_is_dtls(c->ver))
         {
             int tls13 = c->ver == V_TLS13 || NGTD_VER(s->ssl, v_tls_1_3_any);
             int prot = tls13 ? g->orig[0] == 23 : was_read_secure;
